@@ -85,6 +85,25 @@ fn sweep_cases(real: &Real, thorough: bool) -> Vec<(String, M)> {
     out
 }
 
+/// the same cases as `order`, executed once, last case first, in a process of its own: the
+/// supervisor compares the per-case digests with those of the forward run (a cache that is filled
+/// once and never corrected gives the same answer twice within one process, but not across orders)
+pub fn order_rev(ctx: &mut Ctx) {
+    let mut real = Real::new();
+    let cases = sweep_cases(&real, ctx.tier_thorough);
+    for (k, (name, m)) in cases.iter().enumerate().rev() {
+        let id = k as u64;
+        ctx.transitions += 1;
+        ctx.states += 1;
+        let out = crate::core::step_once(&mut real, &crate::core::with_instr(m, name));
+        let okey = out.key();
+        if ctx.only.is_none() || ctx.only == Some(id) {
+            ctx.record(id, &format!("{}|{}", name, okey), Verdict::Pass, || format!("{} on {{{}}} (reverse-first process)", name, m.key()));
+        }
+    }
+    ctx.next_id = cases.len() as u64;
+}
+
 pub fn order(ctx: &mut Ctx) {
     let mut real = Real::new();
     let cases = sweep_cases(&real, ctx.tier_thorough);
@@ -293,6 +312,7 @@ pub fn clidump(ctx: &mut Ctx) {
 pub fn run(ctx: &mut Ctx) {
     match ctx.family.as_str() {
         "order" => order(ctx),
+        "orderrev" => order_rev(ctx),
         "pairs" => pairs(ctx),
         "clidump" => clidump(ctx),
         f => panic!("unknown family {}", f),
